@@ -333,6 +333,8 @@ func simC10Protocol(c *Ctx) {
 	}
 	sp.refine = c.G(3) == 2
 	richRefine := c.G(2) == 0
+	panicKind := c.G(numPanicKinds)
+	concreteUnknown := c.G(2) == 0
 	var ps []string
 	for _, p := range sp.params {
 		ps = append(ps, p.String())
@@ -348,6 +350,10 @@ func simC10Protocol(c *Ctx) {
 		c.Fired("cb.error.type")
 	case tyPanic:
 		c.Fired("cb.panic.type")
+		c.Fired("cb.panic.kind:" + panicKindNames[panicKind])
+	}
+	if sp.imBeh == imPanic {
+		c.Fired("cb.panic.kind:" + panicKindNames[panicKind])
 	}
 	switch sp.imBeh {
 	case imError:
@@ -383,7 +389,7 @@ func simC10Protocol(c *Ctx) {
 			spy.typeErr = errors.New("injected type-check failure")
 			return cty.NilType, spy.typeErr
 		case tyPanic:
-			panic("injected type-check panic")
+			injectedPanic(panicKind, "injected type-check panic", args)
 		case tyDynamic:
 			spy.typeRet = cty.DynamicPseudoType
 		case tyFirstArg:
@@ -471,9 +477,13 @@ func simC10Protocol(c *Ctx) {
 			spy.implErr = errors.New("injected implementation failure")
 			return cty.NilVal, spy.implErr
 		case imPanic:
-			panic("injected implementation panic")
+			injectedPanic(panicKind, "injected implementation panic", args)
 		case imUnknown:
 			spy.implRet = cty.UnknownVal(retType)
+			if concreteUnknown && retType.HasDynamicTypes() {
+				// the implementation settles the type the type check left open, but not the value
+				spy.implRet = cty.UnknownVal(valueOf(retType).Type())
+			}
 		case imMarked:
 			spy.implRet = valueOf(retType).Mark("implmark")
 		case imNull:
@@ -1012,4 +1022,33 @@ func marksSig(got, want []string) string {
 		}
 	}
 	return ""
+}
+
+// ways a callback can panic: what reaches recover() differs (a string, an error value, an error of the
+// Go runtime, a value of the author's own type), the contract does not
+var panicKindNames = []string{"string", "error-value", "runtime-index", "runtime-nil-map", "runtime-nil-deref", "runtime-type-assertion", "custom-type"}
+
+const numPanicKinds = 7
+
+type c10PanicValue struct{ why string }
+
+func injectedPanic(kind int, msg string, args []cty.Value) {
+	switch kind {
+	case 1:
+		panic(errors.New(msg))
+	case 2:
+		_ = args[len(args)] // index out of range
+	case 3:
+		var m map[string]int
+		m[msg] = 1
+	case 4:
+		var p *c10PanicValue
+		_ = p.why
+	case 5:
+		var x interface{} = msg
+		_ = x.(int)
+	case 6:
+		panic(c10PanicValue{msg})
+	}
+	panic(msg)
 }
